@@ -78,7 +78,12 @@ func c20message(kind string) (*entities.Message, []c20fieldWant) {
 	case "arrive-template":
 		set.PrepareSet(entities.Template, 256)
 		var els []entities.InfoElementWithValue
-		for _, n := range []string{"sourceIPv4Address", "sourceTransportPort", "interfaceName"} {
+		names := []string{"sourceIPv4Address", "sourceTransportPort", "interfaceName"}
+		if c20seq%2 == 1 {
+			// every other template message re-defines the same template id with other fields
+			names = []string{"destinationIPv4Address", "protocolIdentifier", "octetDeltaCount", "flowEndReason"}
+		}
+		for _, n := range names {
 			e, _ := entities.DecodeAndCreateInfoElementWithValue(c20ie(n, 0), nil)
 			els = append(els, e)
 			want = append(want, c20fieldWant{n, ""})
